@@ -54,7 +54,7 @@ def cases(tier, seed):
             for (s1, f1), (s2, f2) in itertools.product([(s, f) for s in range(len(SUBS)) for f in FLAGSETS[2:] if ok_flags(SUBS[s][1], f) and 'Certify' not in f], repeat=2):
                 if s1 != s2:
                     two.append(((s1, f1), (s2, f2)))
-            step = 7 if tier == 'quick' else 2
+            step = 7 if tier == 'quick' else 1
             combos += two[(len(pn) + len(pf)) % step::step]
             for c in combos:
                 cells.append({'p': pn, 'pf': pf, 'subs': [[SUBS[s][0], f] for s, f in c]})
